@@ -6,11 +6,12 @@ from typing import (
     AsyncIterator,
     Awaitable,
     Callable,
+    List,
     MutableMapping,
 )
 
 from ..concurrency import run_in_threadpool
-from ..datastructures import Headers
+from ..datastructures import Headers, RawCookie
 from ..typing import ASGIApp, Scope, Receive, Send, Message
 from .requests import Request
 from .responses import Response, StreamingResponse
@@ -66,6 +67,7 @@ class NextResponse(StreamingResponse):
         """
         status_code = 200
         headers = Headers()
+        cookies: List[str] = []
         body = CachedStream()
 
         async def send(message: Message) -> None:
@@ -73,19 +75,26 @@ class NextResponse(StreamingResponse):
             nonlocal headers
             if message["type"] == "http.response.start":
                 status_code = message["status"]
+                response_headers = [
+                    (k.decode("latin-1"), v.decode("latin-1"))
+                    for k, v in message.get("headers", [])
+                ]
+                # Several Set-Cookie lines must not be folded into one header.
                 headers = Headers(
-                    [
-                        (k.decode("latin-1"), v.decode("latin-1"))
-                        for k, v in message.get("headers", [])
-                    ]
+                    (k, v) for k, v in response_headers if k.lower() != "set-cookie"
                 )
+                cookies[:] = [
+                    v for k, v in response_headers if k.lower() == "set-cookie"
+                ]
             elif message["type"] == "http.response.body":
                 await body.push(message.get("body", b""))
                 if not message.get("more_body", False):
                     await body.push_eof()
 
         await app(request, request._receive, send)
-        return NextResponse(body, status_code, headers)
+        response = NextResponse(body, status_code, headers)
+        response.cookies.extend(RawCookie(line) for line in cookies)  # type: ignore
+        return response
 
 
 def middleware(
